@@ -32,6 +32,8 @@ run_directed = directed.run
 
 def cases(tier, rng):
     thorough = tier == "thorough"
+    for c in directed.sometimes_awaitable_condition_cases():
+        yield "directed-sometimes-awaitable-condition", c
     for c in directed.used_before_override_cases():
         yield "directed-used-before-override", c
     for c in directed.sync_layer_over_coroutine_cases():
